@@ -185,8 +185,26 @@ def r3_rel(ck, F, R="C02-R3"):
             sw, t_t, f_t = ed
             if c["op"] == "!=":
                 t_t, f_t = f_t, t_t
-            st_sites = [s for s, s_ in pv.sites() if s.i is not None and s_["s"] == "assign" and s_["pl"]["p"] and isinstance(s_["pl"]["p"][-1], dict) and s_["pl"]["p"][-1].get("name") == "current_offset"]
-            okb = any(pv.dominates(f_t, s.bb) for s in st_sites) and not any(pv.dominates(t_t, s.bb) and pv.in_loop(s.bb) for s in st_sites)
+            # the current key ends the scan (that edge cannot come back to the comparison without leaving the loop),
+            # any other key continues it (that edge does), and the scan remembers offsets only while it continues
+            lp = [(h, blks) for h, blks in pv.loops() if c["site"].bb in blks]
+            if lp:
+                h, blks = min(lp, key=lambda x: len(x[1]))
+
+                def comes_back(frm):
+                    seen, work = set(), [frm]
+                    while work:
+                        x = work.pop()
+                        if x in seen or x not in blks:
+                            continue
+                        seen.add(x)
+                        if x == c["site"].bb:
+                            return True
+                        work += pv.succs(x)
+                    return False
+                stores_on_stop = [s for s, s_ in pv.sites() if s.i is not None and s_["s"] == "assign" and s_["pl"]["p"] and isinstance(s_["pl"]["p"][-1], dict)
+                                  and s_["pl"]["p"][-1].get("name") == "current_offset" and pv.dominates(t_t, s.bb) and s.bb in blks]
+                okb = comes_back(f_t) and not comes_back(t_t) and not stores_on_stop
         ck.ob(R, "prev-scan-arm-actions", okb, "different key => remember this offset and go on; the current key => leave the loop with the offset before it", pv, c["site"])
     # --- no answer without a probe: every success exit of the three ReaderCursor seeks is dominated by the seek it
     # delegates to (an early `return Ok(None)` for a special-cased probe — the empty key — answers without looking,
